@@ -95,8 +95,8 @@ def rule_file_naming(ctx):
 
 from .c13 import rule_no_implicit_tx_calls  # noqa: E402  (work that was never committed must be absent afterwards)
 
-DESTRUCTIVE_ATTRS = {"unlink", "rmdir", "rmtree", "remove", "removedirs", "rename", "replace", "truncate", "write_text", "write_bytes", "move", "copyfile",
-                     "copy", "copy2", "touch"}
+# pathlib methods whose names are not also methods of str / list / dict / sqlglot nodes
+DESTRUCTIVE_ATTRS = {"unlink", "rmdir", "rmtree", "removedirs", "rename", "truncate", "write_text", "write_bytes", "touch"}
 DESTRUCTIVE_DOTTED = {"os.remove", "os.unlink", "os.rmdir", "os.removedirs", "os.rename", "os.replace", "os.truncate", "shutil.rmtree", "shutil.move",
                       "shutil.copy", "shutil.copyfile", "shutil.copy2"}
 
@@ -112,9 +112,7 @@ def _destructive_calls(tree, dotted_of):
             out.append((n, d))
         elif isinstance(n.func, ast.Attribute) and n.func.attr in DESTRUCTIVE_ATTRS and not d.startswith(("re.", "string.", "sqlglot.", "pyarrow.", "pa.", "pc.")):
             recv = norm(n.func.value)
-            # str.replace / dict.copy / expression.copy() / node.replace() are not file operations: require a path-like receiver
-            if any(w in recv.lower() for w in ("path", "file", "dir", "wal", "db_")) or "Path(" in recv:
-                out.append((n, f"{recv}.{n.func.attr}"))
+            out.append((n, f"{recv}.{n.func.attr}"))
         elif (isinstance(n.func, ast.Name) and n.func.id == "open") or d in ("builtins.open", "io.open") or (isinstance(n.func, ast.Attribute) and n.func.attr == "open"
                                                                                                     and "path" in norm(n.func.value).lower()):
             mode = n.args[1] if len(n.args) > 1 else next((k.value for k in n.keywords if k.arg == "mode"), None)
